@@ -112,9 +112,10 @@ func main() {
 		fs := flag.NewFlagSet("selftest", flag.ExitOnError)
 		seeds := fs.Int("seeds", 30, "")
 		base := fs.Int64("seed", 1, "")
+		prop := fs.String("prop", "", "run with the options of this property's check (e.g. C19: projection)")
 		_ = fs.Parse(os.Args[2:])
 		self, _ := os.Executable()
-		r := sim.SelfTest(self, *base, *seeds, []string{"general", "book", "fixed", "replicas", "genesis", "hooks"}, []int{1, 4, 16}, 2, "")
+		r := sim.SelfTest(self, *base, *seeds, []string{"general", "book", "fixed", "replicas", "genesis", "hooks", "crowd", "sprawl", "concurrent", "extreme", "clock"}, []int{1, 4, 16}, 2, *prop)
 		b, _ := json.Marshal(r)
 		fmt.Println(string(b))
 		if r.Mismatches > 0 {
